@@ -36,7 +36,8 @@ def run(prog, an, rep):
     rep.assume('the git host returns the status of the right build; git '
                'creates new merge commits when source or target moved')
     rep.run_rules(prog, an, [
-        lookup_rules, ranking_rules, outcome_table, early_exits,
+        lookup_rules, verdict_after_lookups, ranking_rules, outcome_table,
+        early_exits,
         bypass_helper, exception_families, build_gate, pushed_before_lookup,
         integration_vector, tips_refreshed, per_author, in_sync_pairs,
         skew_rules])
@@ -342,6 +343,60 @@ def enclosing_iter(pm, node, var):
                        if isinstance(x, ast.Name)}:
                 return n.iter, []
     return None
+
+
+def verdict_after_lookups(prog, an, rep):
+    """No waiting verdict (BuildNotStarted / BuildInProgress) is issued inside
+    an iteration that is still looking statuses up: the tips not yet looked
+    up may be FAILED (must be reported as failed, not waited for) or not
+    green at all.  Necessary for "if ANY is FAILED or STOPPED the author is
+    told"; a verdict computed after the whole vector is known (the ranking
+    + reducer of the clean tree, or a second pass over the collected
+    statuses) satisfies it."""
+    f = gate_func(an)
+    R = 'C06.ORD.verdict-after-lookups'
+    looks = find_lookup(an, f)
+    helpers = {u.node.name for u, _ in looks if u is not f}
+    pm = parent_map(f.node)
+
+    def looks_up(tree):
+        for n in ast.walk(tree):
+            if isinstance(n, ast.Call):
+                if isinstance(n.func, ast.Attribute) and \
+                        n.func.attr == 'get_build_status':
+                    return True
+                if isinstance(n.func, ast.Name) and n.func.id in helpers:
+                    return True
+        return False
+
+    for u in units(f):
+        for n in walk_local(u.node):
+            if not isinstance(n, ast.Raise) or n.exc is None:
+                continue
+            cls = raise_class(an, u, n)
+            # (BuildFailed inside the loop is sound: a failure is final
+            # whatever the later tips say)
+            if cls not in (EXC + '.BuildNotStarted',
+                           EXC + '.BuildInProgress'):
+                continue
+            rep.evaluated()
+            loop, m = None, n
+            while m in pm and m is not u.node:
+                m = pm[m]
+                if isinstance(m, (ast.For, ast.AsyncFor, ast.While)) and \
+                        looks_up(m):
+                    loop = m
+                    break
+            rep.check(loop is None, R,
+                      '%s: %s decided after every status is known' %
+                      (f.qname, cls.rpartition('.')[2]), u.where(n),
+                      '%s is raised inside the loop at line %s that is '
+                      'still looking statuses up: the tips after the '
+                      'current one are never consulted, so a FAILED / '
+                      'STOPPED tip behind a waiting one is not reported '
+                      '(and a waiting verdict hides it)' %
+                      (cls.rpartition('.')[2],
+                       getattr(loop, 'lineno', '?')))
 
 
 def find_ranking(f):
